@@ -72,14 +72,37 @@ def evalClosed (e : Expr) : SimpM Step := do
   let p ← mkEq e v
   let pf ← mkDecideProof p
   return .done { expr := v, proof? := some pf }
-/-- application of a specification family (`Option SpecRes`, closed method name, operands with free variables): the
-kernel's weak head normal form (`none`, or `some (build …)` with the operands substituted); equation by `rfl`
-(kernel-checked definitional equality) -/
+/-- kernel weak head normal form of a specification family applied to a literal name and operands with free
+variables, as a tree: `none` / `some …` at the leaves; where the kernel got stuck on an `if` whose condition depends on
+an operand (`Decidable.rec … inst`), the `if` is put back (`ite c t e` with the same instance) and both branches are
+evaluated in turn. `none` when the shape is not understood. -/
+partial def evalTree (e : Expr) (fuel : Nat := 8) : MetaM (Option Expr) := do
+  let r ← try ofExceptKernelException (Kernel.whnf (← getEnv) (← getLCtx) e) catch _ => return none
+  if r.isAppOf ``Option.some || r.isAppOf ``Option.none then return some r
+  if fuel = 0 then return none
+  if r.isAppOfArity ``Decidable.rec 5 then
+    let args := r.getAppArgs
+    let p := args[0]!
+    let inst := args[4]!
+    let branch (f : Expr) (hyp : Expr) : MetaM (Option Expr) :=
+      withLocalDeclD `h hyp fun h => do
+        let b := (mkApp f h).headBeta
+        let b ← Core.betaReduce b
+        if b.containsFVar h.fvarId! then return none
+        evalTree b (fuel - 1)
+    let some eb ← branch args[2]! (mkNot p) | return none
+    let some tb ← branch args[3]! p | return none
+    let α ← inferType tb
+    let u ← getLevel α
+    return some (mkAppN (mkConst ``ite [u]) #[α, p, inst, tb, eb])
+  return none
+
+/-- application of a specification family (`Option SpecRes`, closed method name, operands with free variables):
+replaced by its `evalTree`; equation by `rfl` (definitional equality, re-checked by the kernel) -/
 def evalHead (e : Expr) : SimpM Step := do
   if e.hasMVar || e.hasLooseBVars then return .continue
-  let r ← try ofExceptKernelException (Kernel.whnf (← getEnv) (← getLCtx) e) catch _ => return .continue
+  let some r ← evalTree e | return .continue
   if r == e then return .continue
-  unless r.isAppOf ``Option.some || r.isAppOf ``Option.none do return .continue
   let pf ← mkExpectedTypeHint (← mkEqRefl r) (← mkEq e r)
   return .done { expr := r, proof? := some pf }
 end Dora.A64.KEval
